@@ -84,7 +84,8 @@ def mutate_eom(draw, c):
     if not c.get("eom"):
         return c
     e = c["eom"]
-    for m in draw(st.lists(st.sampled_from(["idet", "idet", "max_amp", "max_amp", "beams", "coeff", "bw", "buffer"]),
+    for m in draw(st.lists(st.sampled_from(["idet", "idet", "max_amp", "max_amp", "beams", "coeff", "bw", "buffer",
+                                            "ch_bw"]),
                            min_size=1, max_size=2, unique=True)):
         if m == "idet":
             e["intermediate_detuning"] = e["intermediate_detuning"] * draw(st.sampled_from([1.5, 0.5, 2.0]))
@@ -98,6 +99,9 @@ def mutate_eom(draw, c):
             e["mod_bandwidth"] = draw(st.sampled_from([20, 40, 100]))
         elif m == "buffer":
             e["custom_buffer_time"] = draw(st.sampled_from([240, 100]))
+        elif m == "ch_bw" and c.get("mod_bandwidth"):
+            # the channel's own bandwidth (pulses outside EOM blocks, default buffers, output)
+            c["mod_bandwidth"] = draw(st.sampled_from([x for x in (4, 8, 20, 40) if x != c["mod_bandwidth"]]))
     return c
 
 
@@ -356,6 +360,21 @@ def check(case, ctx: Ctx):
                         xb = np.asarray(getattr(sb.channel_samples[ren.get(n, n)], key).as_array())
                         if xa.shape != xb.shape or not np.allclose(xa, xb, rtol=0, atol=1e-12):
                             ctx.fail(C, f"strict:samples_changed:{key}", n)
+                # the samples as they leave the channel (output modulation), where both can be computed
+                try:
+                    ma, mb = sample(seq, modulation=True), sample(new, modulation=True)
+                except Exception:  # noqa: BLE001 - modulated sampling is C14's subject
+                    ma = mb = None
+                if ma is not None and not slm_only and not d:
+                    for n in seq.declared_channels:
+                        for key in ("amp", "det"):
+                            xa = np.asarray(getattr(ma.channel_samples[n], key).as_array())
+                            xb = np.asarray(getattr(mb.channel_samples[ren.get(n, n)], key).as_array())
+                            if xa.shape != xb.shape or not np.allclose(xa, xb, rtol=0, atol=1e-9):
+                                oa, ob = seq._schedule[n].channel_obj, new._schedule[ren.get(n, n)].channel_obj
+                                ctx.fail(C, f"strict:modulated_samples_changed:{key}",
+                                         f"{n}: mod_bandwidth {oa.mod_bandwidth} -> {ob.mod_bandwidth}, in EOM mode at some "
+                                         f"point: {bool(seq._schedule[n].eom_blocks)}")
         elif not new.is_parametrized():
             # non-strict: the result must be a valid sequence on B
             w2 = history.Walker.__new__(history.Walker)
